@@ -49,6 +49,12 @@ Definition oracle_case (k : case) : bool :=
       ident &&
       (* the connection argument is the base's at every layer *)
       forallb (fun e => match e with ClientEnter _ _ _ _ cc => Bool.eqb cc g | _ => true end) ol &&
+      (* what the outermost interceptor returns is what the caller gets, as it is (a bare context error
+         stays a bare context error) *)
+      (match chain with
+       | s :: _ => if cs_fail s =? 0 then true else outcome_eqb obs (Err (cs_fail s))
+       | [] => true
+       end) &&
       (if forallb ctransparent chain then
          outcome_eqb obs (Ok (req + tag)) &&
          list_eqb event_eqb ol (map (fun s => ClientEnter (cs_tag s) m req opts g) chain ++ [BaseCall m req opts])
